@@ -44,6 +44,10 @@ func init() {
 		defB("sched_cancels_before_stop", v, ok, "advertise.go schedule(): in the errC case cancel() precedes ws.stop()")
 		v, ok = cancelBeforeWait(findFunc(lis, "listener.Listen"))
 		defB("listen_cancel_before_wait", v, ok, "listener.go Listen(): deferred func calls cancel() before eg.Wait()")
+		v, ok = returnsAfterWait(findFunc(adv, "Advertiser.advertise"))
+		defB("advertise_returns_after_wait", v, ok, "advertise.go advertise(): every eg.Go precedes eg.Wait() and no return precedes it")
+		v, ok = shutdownAfterAdvertise(findFunc(adv, "Advertiser.Run"))
+		defB("shutdown_after_advertise", v, ok, "advertise.go Run(): a.shutdown follows the return of a.advertise, is followed by a return, and no a.send follows a.advertise")
 		return b.String()
 	})
 }
@@ -255,4 +259,106 @@ func cancelBeforeWait(fd *ast.FuncDecl) (bool, bool) {
 		}
 	}
 	return good, found
+}
+
+// containsCall reports whether node n contains a call recv.name(...) outside function literals.
+func containsCall(n ast.Node, recv, name string) bool {
+	found := false
+	ast.Inspect(n, func(nd ast.Node) bool {
+		if _, ok := nd.(*ast.FuncLit); ok {
+			return false
+		}
+		if e, ok := nd.(ast.Expr); ok && isCallExpr(e, recv, name) {
+			found = true
+		}
+		return true
+	})
+	return found
+}
+
+// returnsAfterWait: among the top-level statements of advertise(), the first one that calls
+// eg.Wait() comes after every statement that calls eg.Go(...), and no statement before it contains
+// a return (function literals excluded): advertise returns only when every member has returned.
+func returnsAfterWait(fd *ast.FuncDecl) (bool, bool) {
+	if fd == nil || fd.Body == nil {
+		return false, false
+	}
+	w := -1
+	for i, s := range fd.Body.List {
+		if containsCall(s, "eg", "Wait") {
+			w = i
+			break
+		}
+	}
+	if w < 0 {
+		return false, false
+	}
+	good, goes := true, 0
+	for i, s := range fd.Body.List {
+		if containsCall(s, "eg", "Go") {
+			goes++
+			if i > w {
+				good = false
+			}
+		}
+		if i < w {
+			ast.Inspect(s, func(nd ast.Node) bool {
+				if _, ok := nd.(*ast.FuncLit); ok {
+					return false
+				}
+				if _, ok := nd.(*ast.ReturnStmt); ok {
+					good = false
+				}
+				return true
+			})
+		}
+	}
+	return good && goes > 0, true
+}
+
+// shutdownAfterAdvertise: inside Run(), the only call of a.shutdown is a statement of a case
+// clause that lies after the a.advertise(...) call, the statement right after it is a return, and
+// no a.send(...) call lies after the a.advertise(...) call.
+func shutdownAfterAdvertise(fd *ast.FuncDecl) (bool, bool) {
+	if fd == nil || fd.Body == nil {
+		return false, false
+	}
+	var advPos token.Pos
+	ast.Inspect(fd.Body, func(nd ast.Node) bool {
+		if e, ok := nd.(ast.Expr); ok && isCallExpr(e, "a", "advertise") && advPos == token.NoPos {
+			advPos = e.Pos()
+		}
+		return true
+	})
+	if advPos == token.NoPos {
+		return false, false
+	}
+	shutdowns, good := 0, true
+	ast.Inspect(fd.Body, func(nd ast.Node) bool {
+		if e, ok := nd.(ast.Expr); ok && isCallExpr(e, "a", "send") && e.Pos() > advPos {
+			good = false
+		}
+		var body []ast.Stmt
+		switch b := nd.(type) {
+		case *ast.CaseClause:
+			body = b.Body
+		case *ast.BlockStmt:
+			body = b.List
+		}
+		for i, s := range body {
+			if isCall(s, "a", "shutdown") {
+				shutdowns++
+				if s.Pos() < advPos {
+					good = false
+				}
+				if i+1 >= len(body) {
+					good = false
+				} else if _, ok := body[i+1].(*ast.ReturnStmt); !ok {
+					good = false
+				}
+			}
+		}
+		return true
+	})
+	return good && shutdowns == 1, shutdowns > 0
 }
